@@ -43,6 +43,54 @@ def decompress_file(path, comp):
         return None, "decompression failed: %s" % e
 
 
+def small(ops):
+    return sum(int(o.split(":")[1]) for o in ops if o.startswith("c:")) <= (2 << 20)
+
+
+def codec_calls(run, cases, ans, tgt, seen):
+    """correspondence of Model.Writer's loops (cwWriteCalls / cwFinishCalls / cwLifecycle): the model, run against a codec that
+    answers what the real compressor answered, must make exactly the calls the library made to deflate / lzma_code - bytes
+    offered, finish flag, output space - and hand as many bytes to the inner writer as the compressed output holds"""
+    reqs, meta = [], []
+    for comp in "gx":
+        for ci, ops in enumerate(cases):
+            a = ans[comp][ci]
+            if a is None or not a.startswith("I ok") or " | K " not in a:
+                continue
+            klog = a.split(" | K ")[1].strip()
+            per_out = klog.split("|")
+            # chunk sizes per output
+            outs, cur = [], []
+            for o in ops:
+                if o == "r":
+                    outs.append(cur); cur = []
+                elif o.startswith("c:"):
+                    cur.append(int(o.split(":")[1]))
+            outs.append(cur)
+            if len(per_out) != len(outs):
+                run.model_fail.append((("codec", comp, tgt, ci), {"why": "outputs %d, groups of compressor calls %d" % (len(outs), len(per_out)), "session": " ".join(ops)[:300]}))
+                continue
+            for oi, (sizes, log) in enumerate(zip(outs, per_out)):
+                calls = [c.split(":") for c in log.strip(",").split(",") if c]
+                answers = ",".join("%s:%s:%s" % (c[3], c[4], c[5]) for c in calls) or "-"
+                made = ",".join("%s:%s:%s" % (c[0], c[1], c[2]) for c in calls)
+                produced = sum(int(c[4]) for c in calls)
+                # a zero-length write() makes no compressor call (the loop `while (avail_in > 0)` does not run): as in the model
+                reqs.append("cw %s %s" % (",".join(map(str, sizes)) or "-", answers)); meta.append((comp, ci, oi, made, produced, ops))
+    if not (run.driver_ok and reqs):
+        return
+    model = G.run_driver(reqs)
+    for (comp, ci, oi, made, produced, ops), m in zip(meta, model):
+        run.count("compressor-call sequences compared with the model (%s)" % {"g": "gzip", "x": "xz"}[comp])
+        want = "M %s | %d" % (made, produced)
+        if m != want:
+            sig = "codec:calls:%s/%s" % ({"g": "gzip", "x": "xz"}[comp], tgt)
+            if sig not in seen:
+                seen.add(sig)
+                run.model_fail.append((("codec", comp, tgt, ci, oi), {"why": "the library's calls to the compressor differ from the model's",
+                                                                     "library": want[:400], "model": (m or "")[:400], "session": " ".join(ops)[:300]}))
+
+
 def check(run):
     run.lean()
     rng = run.rng
@@ -65,8 +113,10 @@ def check(run):
             lines = {}
             for comp in "ngx":
                 d = os.path.join(tmp, tgt + comp); os.makedirs(d, exist_ok=True)
-                lines[comp] = ["wr %s %s %s %d %s" % (d, comp, tgt, ci, " ".join(ops)) for ci, ops in enumerate(cases)]
+                # (gzip/xz, at most 2 MiB per session: also log every call made to the compressor, for the model's write/finish loops)
+                lines[comp] = ["wr %s %s %s %d %s" % (d, comp, tgt, ci, " ".join((["k"] if comp != "n" and small(ops) else []) + ops)) for ci, ops in enumerate(cases)]
             ans = {comp: vlib.run_lines([exe, "wr"], lines[comp], timeout=1800, jobs=8, min_chunk=8) for comp in "ngx"}
+            codec_calls(run, cases, ans, tgt, seen)
             for ci, ops in enumerate(cases):
                 nontrivial = any(o.startswith("c:") and not o.startswith("c:0:") for o in ops)
                 run.case((tgt, " ".join(ops)[:200]), nontrivial)
